@@ -251,6 +251,42 @@ CLAIMED = {
              "see them).",
         technique="Lean 4 proof (induction / invariants) + T-extract of layouts + two-implementation differential tie",
     ),
+    "C16": dict(
+        text="Machine-checked Lean theorems about an executable automaton of the transactional producer at quiescent "
+             "points, for every call sequence and any one fault at any transactional request. An out-of-order call "
+             "raises with no effect on cluster, manager, requests or futures. After an abortable error commit raises "
+             "it, abort returns, and a new transaction succeeds while nothing of the aborted one is ever readable. "
+             "After a fatal error every later call raises and nothing more is written. The 7x7 transition table is "
+             "regenerated from the source on every run and proved equal to the model's by `decide`. The automaton is "
+             "tied to the real AIOKafkaProducer exhaustively: all call sequences of length <= 4 (quick) or <= 5 plus a "
+             "sampled length 6 (thorough) x every fault at every request, comparing call results, requests seen by "
+             "brokers, futures, manager state, read-committed views and group offsets. One clause is partial: a fencing "
+             "/ sequence error answered to a Produce only fails the batch (known finding, kernel-checked "
+             "counterexample).",
+        design="0.3/C16",
+        note="trusted: Lean kernel (propext, Quot.sound); the Env model (coordinator, markers, pending offsets) and the "
+             "simulator, compared per case; harness canonicalisation; quiescence between calls (several calls in "
+             "flight is C07's tie); asserts enabled (no python -O).",
+        technique="Lean proof (API automaton + Env) + T-extract of the transition table + exhaustive T-trace vs the real producer",
+    ),
+    "C07": dict(
+        text="Two machine-checked layers. For every sequential program (including kill and restart) with any one "
+             "fault, the API automaton over a coordinator / log environment satisfies read-committed atomicity of "
+             "records and offsets, the three protocol-order clauses on the request log, and 'retriable faults alone "
+             "never fail a call or a send' (partial: no clock, one fault). For arbitrary histories a trace acceptor is "
+             "proved atomic: whatever it accepts, committed-and-acknowledged records are readable and aborted or "
+             "fenced ones never are; the acceptor also enforces produce-after-add, no data outside the transaction and "
+             "EndTxn only after all acks. On every run seeded concurrent workloads of the real producer (several "
+             "incarnations, zombies, retriable and connection faults at all seven transactional request types, slow "
+             "coordinators and leaders) are validated through the acceptor, cross-checked against the simulator's logs "
+             "and compared with an independent read-committed reader. Liveness on the implementation is a bounded "
+             "virtual-time observation.",
+        design="0.3/C07",
+        note="trusted: Lean kernel; Env (transcription of Kafka transaction semantics, compared with the simulator on "
+             "every trace); simulator; trace->event translation; schedules and fault placements are sampled, not "
+             "exhaustive.",
+        technique="Lean proof (API automaton + trace acceptor over Env) + T-trace of concurrent workloads + independent read-committed reader",
+    ),
 }
 
 NOT_YET = {}
